@@ -18,6 +18,9 @@
      run=0|1                               execute `main` (if the module has one) through the interface
      out=0|1                               MIR_output to /dev/null and MIR_write to a scratch file
      rep=<n>                               repeat gen_init .. gen_finish n times inside one context
+     tier=0|1                              1: the function is first executed with MIR_interp and only then called through
+                                           its address (tiered execution; matters for the lazy interfaces, where the
+                                           first call generates code for a function the interpreter has prepared)
    bin:<file> = context 1: scan + MIR_write + finish; context 2 (a new execution): MIR_read + the rest.
    One line per history on stdout: "H <index> <status> <events>" with status ok|abort:<why>. */
 #define _GNU_SOURCE
@@ -159,6 +162,46 @@ static const char *c_inputs[][2] = {
    /* only t[0] is touched: c2mir emits `t: bss 4` AND `t: bss 12` for the two declarations of t and binds uses to
       the first, so t[2] would be a store behind the section (a miscompilation, not an allocator matter) */
    "int main (void) { t[0] = 7; return !(sum (4) + (int) (sizeof (tab) / sizeof (tab[0])) == 14 && ps->y == 6 && t[0] == 7 && f (1) == 2); }\n"},
+  {"macros", /* preprocessor-heavy: function-like macros with 0/1/n parameters and empty argument lists, variadic
+                 macros, nested expansion, stringification, pasting, #if arithmetic, the built-in headers */
+   "#include <stddef.h>\n"
+   "#include <stdarg.h>\n"
+   "#include <limits.h>\n"
+   "#include <stdint.h>\n"
+   "#include <float.h>\n"
+   "#include <stdbool.h>\n"
+   "#include <iso646.h>\n"
+   "#include <stdalign.h>\n"
+   "#include <stdnoreturn.h>\n"
+   "#define ZERO() 0\n"
+   "#define ONE( ) (ZERO () + 1)\n"
+   "#define ID(x) x\n"
+   "#define ADD3(a, b, c) ((a) + (b) + (c))\n"
+   "#define APPLY(m, ...) m (__VA_ARGS__)\n"
+   "#define CNT(...) CNT_ (__VA_ARGS__, 3, 2, 1, 0)\n"
+   "#define CNT_(a, b, c, n, ...) n\n"
+   "#define XSTR(x) STR_ (x)\n"
+   "#define STR_(x) #x\n"
+   "#define CAT(a, b) CAT_ (a, b)\n"
+   "#define CAT_(a, b) a##b\n"
+   "#define EMPTY\n"
+   "#define NOARG_OBJ ZERO\n"
+   "#define TWICE(f) f () + f ()\n"
+   "#define LOG(fmt, ...) vsum (CNT (__VA_ARGS__), __VA_ARGS__)\n"
+   "static int vsum (int n, ...) { va_list ap; int s = 0; va_start (ap, n); while (n-- > 0) s += va_arg (ap, int); va_end (ap); return s; }\n"
+   "static const char *name = XSTR (CAT (ab, ZERO ()));\n"
+   "#if ZERO () || !defined(ID) || ONE () != 1\n"
+   "#error unexpected\n"
+   "#elif ADD3 (1, 2, 3) == 6 && CNT (x, y) == 2\n"
+   "enum { OK = ONE () };\n"
+   "#endif\n"
+   "int main (void) {\n"
+   "  int CAT (v, 1) = ID (ID (ZERO ())) + APPLY (ADD3, 1, ONE (), 3) EMPTY;\n"
+   "  bool b = true and not false;\n"
+   "  size_t z = offsetof (struct { char c; int32_t i; }, i);\n"
+   "  return !(v1 == 5 && OK == 1 && TWICE (ONE) == 2 && NOARG_OBJ () == 0 && LOG (\"x\", 1, 2, 3) == 6 && name[0] == 'a' && name[2] == '0'\n"
+   "           && b && z == alignof (int) && INT_MAX > 0 && DBL_DIG >= 10 && ZERO( ) == 0);\n"
+   "}\n"},
   {"empty", "int main (void) { return 0; }\n"},
 };
 
@@ -264,7 +307,7 @@ static char *read_text (const char *path) {
 /* ---------------------------------------------------------------- one history */
 struct hist {
   char src[300], link[16];
-  int opt, run, out, rep;
+  int opt, run, out, rep, tier;
 };
 
 static void parse_hist (const char *spec, struct hist *h) {
@@ -286,6 +329,7 @@ static void parse_hist (const char *spec, struct hist *h) {
     else if (strcmp (tok, "run") == 0) h->run = atoi (eq);
     else if (strcmp (tok, "out") == 0) h->out = atoi (eq);
     else if (strcmp (tok, "rep") == 0) h->rep = atoi (eq);
+    else if (strcmp (tok, "tier") == 0) h->tier = atoi (eq);
   }
 }
 
@@ -611,9 +655,19 @@ static const char *run_ctx (struct hist *h, const char *name, const char *write_
           MIR_interp_arr (ctx, main_func, &v, (size_t) na, &a);
           c17_note ("main_result", (long) v.i);
         } else {
-          long (*fn) (long) = main_func->addr;
+          long (*fn) (long);
+          if (h->tier) { /* tier 0: the interpreter, although the interface is a generator one */
+            MIR_val_t v, a;
+            v.i = 0;
+            a.i = 1000;
+            API ("MIR_interp");
+            MIR_interp_arr (ctx, main_func, &v, (size_t) na, &a);
+            c17_note ("interp_result", (long) v.i);
+          }
+          fn = main_func->addr;
           API ("call_main");
           c17_note ("main_result", fn (1000));
+          if (h->tier) c17_note ("main_result", fn (1000)); /* and once more, now certainly generated */
         }
       }
       if (gen_active) {
